@@ -123,15 +123,31 @@ def make_eq(case, order):
 
 def solve(eq, T, P):
     """-> (status, result or exception)"""
-    with warnings.catch_warnings(record=True) as wlist:
-        warnings.simplefilter('always')
-        try:
-            res = eq.get_net_comp(T=T, P=P)
-        except Exception as e:
-            if exc_site(e) is None:
-                raise
-            return 'raised', e
+    # the optimiser's own verdict is observed through the module-level name the solver calls (harness-side spy)
+    import pmutt.equilibrium._equilibrium as eqmod
+    verdicts = []
+    orig = getattr(eqmod, 'minimize', None)
+    if orig is not None:
+        def spy(*a, **k):
+            sol = orig(*a, **k)
+            verdicts.append(bool(sol.success))
+            return sol
+        eqmod.minimize = spy
+    try:
+        with warnings.catch_warnings(record=True) as wlist:
+            warnings.simplefilter('always')
+            try:
+                res = eq.get_net_comp(T=T, P=P)
+            except Exception as e:
+                if exc_site(e) is None:
+                    raise
+                return 'raised', e
+    finally:
+        if orig is not None:
+            eqmod.minimize = orig
     sig = [w for w in wlist if 'Values in x were outside bounds' not in str(w.message)]
+    if not sig and verdicts and not all(verdicts):
+        return 'silent', res
     return ('warned' if sig else 'ok'), res
 
 
@@ -200,6 +216,10 @@ def check_network(case, ctx):
     if status == 'warned':
         ctx.label('signalled-by-warning')
         return
+    if status == 'silent':
+        ctx.fail('C16.network/non-convergence-not-signalled', 'the optimiser reported failure; get_net_comp returned %r '
+                 'without a warning or an exception' % (np.asarray(res.moles).tolist(),))
+        return
     n = np.asarray(res.moles, dtype=float)
     x = np.asarray(res.mole_frac, dtype=float)
     P_bar = case['P'] * 1.01325
@@ -217,6 +237,9 @@ def check_network(case, ctx):
         if alt == order or alt in [o for o, _ in others]:
             continue
         st2, res2, g2, _, _ = run_pmutt(case, alt)
+        if st2 == 'silent':
+            ctx.fail('C16.network/non-convergence-not-signalled', 'listing %r: the optimiser reported failure, no warning' % (alt,))
+            return
         if st2 != 'ok':
             others.append((alt, None))
             continue
@@ -256,6 +279,12 @@ def check_network(case, ctx):
         big = x > 1e-3
         dev = np.abs(np.log(np.maximum(back[big], 1e-300) / n[big]))
         if np.any(dev > 2 * np.sqrt(2e-5 / x[big])):
+            # two listings, two compositions: the one with the higher Gibbs energy is a (silent) solver stall
+            Ga, Gb = gibbs(n, g_model, P_bar), gibbs(back, g_model, P_bar)
+            if abs(Ga - Gb) > 1e-5 * (1 + min(abs(Ga), abs(Gb))):
+                ctx.fail('C16.network/not-minimal:order-dependent-solver-stall',
+                         'listing %r gives %r (G=%.10g), original %r (G=%.10g)' % (alt, back.tolist(), Gb, n.tolist(), Ga))
+                return
             ctx.fail('C16.network/order-dependence', 'listing %r gives %r, original %r' % (alt, back[big].tolist(), n[big].tolist()))
             return
     # --- the same object asked again at other conditions behaves like a fresh one (no stale state) --------
@@ -263,7 +292,9 @@ def check_network(case, ctx):
     st_a, again = solve(eq, T2, P2)
     eq2, _ = make_eq(case, order)
     st_f, fresh = solve(eq2, T2, P2)
-    if st_a != st_f:
+    if 'silent' in (st_a, st_f):
+        ctx.fail('C16.network/non-convergence-not-signalled', 'second call at T=%r P=%r: the optimiser reported failure, no warning' % (T2, P2))
+    elif st_a != st_f:
         ctx.fail('C16.network/reused-object-differs-from-fresh', 'second call %s, fresh object %s' % (st_a, st_f))
     elif st_a == 'ok':
         na, nf = np.asarray(again.moles, dtype=float), np.asarray(fresh.moles, dtype=float)
